@@ -26,6 +26,9 @@ Findings recorded by the proofs (details in the final report of this work):
 * `Check` compares a fixed-size buffer, the model compares the encoder output: equal because a
   returned key always has the length of the final permutation table / block
   (`Proofs/FlowValLen.lean`).
+* sunmd5 `NewHash`: the `if rounds == 0 {…} else {…}` is three guarded assignments in the IR; the nested
+  literal `scheme{saltScheme: saltScheme{…}}` sets promoted fields, and `&separator` is a non-nil pointer
+  to the (never assigned) empty package-level string — the model's `FVal.str []` against `FVal.nilPtr`.
 -/
 
 namespace GoCrypt.FlowModel
@@ -187,19 +190,13 @@ theorem flowNewHash_eq_model_argon2 (r : NewHashReq) (hent : 8 ≤ r.entropy.len
       some (Scheme.newHash argon2 r) :=
   FlowVal.flowNewHash_eq_model_argon2 r hent
 
-/- sunmd5 — NOT PROVED, and not provable for this IR.  Full statement:
-
-     theorem flowNewHash_eq_model_sunmd5 (r : NewHashReq) :
-         outcomeToNewHash (run (prims sunmd5) Gen.sunmd5.flowNewHash (newHashEnv sunmd5 r) ⟨r.entropy, 0⟩) =
-           some (Scheme.newHash sunmd5 r)
-
-   What is missing: the translator emits the statement
-   `if rounds == 0 { scheme.HashPrefix = PrefixZeroRounds } else { scheme.HashPrefix = PrefixNonZeroRounds;
-   scheme.Separator = &separator }` (and the nested `saltScheme` literal's promoted fields) as
-   `FStmt.other`; the IR has no if/else statement.  The semantics is `stuck` on it — proved: -/
-theorem flowNewHash_sunmd5_partial (r : NewHashReq) :
-    ∃ w, run (prims sunmd5) Gen.sunmd5.flowNewHash (newHashEnv sunmd5 r) ⟨r.entropy, 0⟩ = .stuck w :=
-  FlowVal.flowNewHash_sunmd5_stuck r
+/-- No hypothesis: `rounds uint32` is never converted, and sunmd5 draws its salt symbol by symbol (a dry
+entropy source gives a short salt on both sides).  The `if rounds == 0 {…} else {…}` is the three guarded
+assignments of the regenerated IR; `&separator` is a non-nil pointer to the empty string. -/
+theorem flowNewHash_eq_model_sunmd5 (r : NewHashReq) :
+    outcomeToNewHash (run (prims sunmd5) Gen.sunmd5.flowNewHash (newHashEnv sunmd5 r) ⟨r.entropy, 0⟩) =
+      some (Scheme.newHash sunmd5 r) :=
+  FlowVal.flowNewHash_eq_model_sunmd5 r
 
 /-! ## The environments bind the parameter names the translator recorded -/
 
@@ -258,8 +255,8 @@ example : outcomeToNewHash (run (prims argon2) Gen.argon2.flowNewHash
       (newHashEnv argon2 { password := [120], rounds := 1, memory := 8 }) ⟨[], 0⟩) ≠
     some (Scheme.newHash argon2 { password := [120], rounds := 1, memory := 8 }) := by decide +kernel
 
-/-- An untranslated statement is `stuck`, not silently skipped: sunmd5's `NewHash` has one. -/
-example : (match run (prims sunmd5) Gen.sunmd5.flowNewHash
+/-- An untranslated statement is `stuck`, not silently skipped. -/
+example : (match run (prims sunmd5) [.other "if x { … } else { … }", .ret (.const "nil")]
       (env0 [("password", .str passwordBytes), ("rounds", .nat 0)]) ⟨[], 0⟩ with
     | .stuck _ => true | _ => false) = true := by decide +kernel
 
@@ -293,5 +290,5 @@ end GoCrypt.FlowModel
 #print axioms GoCrypt.FlowModel.flowNewHash_eq_model_desext
 #print axioms GoCrypt.FlowModel.flowNewHash_eq_model_bcrypt
 #print axioms GoCrypt.FlowModel.flowNewHash_eq_model_argon2
-#print axioms GoCrypt.FlowModel.flowNewHash_sunmd5_partial
+#print axioms GoCrypt.FlowModel.flowNewHash_eq_model_sunmd5
 #print axioms GoCrypt.FlowModel.parameter_names
